@@ -602,7 +602,8 @@ PROPS['C13'] = dict(_SEL_COMMON, post_batch=make_stat_post('C13', sel_obs_code),
 # C11 / C12: mutation, uniform crossover, random bitstrings / genes
 MUT_KINDS = {0: 'WithRate Vec<bool>', 1: 'WithRate Bitstring', 2: 'WithOneOverLength Vec<bool>', 3: 'WithOneOverLength Bitstring', 4: 'Umad Vector<i64>',
              5: 'Umad Bitstring', 6: 'UniformXo', 7: 'Bitstring::random_with_probability', 8: 'Plushy GeneGenerator', 9: 'WithRate Vec<i64>', 10: 'Umad Plushy',
-             11: 'long genome through two positions [op (0/1 WithRate Vec<bool>/Bitstring, 2/3/4 UniformXo [Bitstring;2]/[Vec<bool>;2]/(Bitstring,Bitstring), 5 random bitstring, 6 WithOneOverLength), length, i, j, rate num, rate den]; child = [changed at i, changed at j]'}
+             11: 'long genome through two positions [op (0/1 WithRate Vec<bool>/Bitstring, 2/3/4 UniformXo [Bitstring;2]/[Vec<bool>;2]/(Bitstring,Bitstring), 5 random bitstring, 6 WithOneOverLength), length, i, j, rate num, rate den]; child = [changed at i, changed at j]',
+             12: 'very long genome, all genes of all children pooled [op (0/1 WithOneOverLength Bitstring/Vec<bool>, 2/3 WithRate Bitstring/Vec<bool>), length, rate num, rate den]; cells [1] = flipped genes, [0] = unflipped genes'}
 def mut_code(inp, child):
     if inp[2][0] == 8:
         return child[0]
@@ -630,7 +631,7 @@ PROPS['C11'] = dict(_MUT_COMMON, judge='(judge_cases judge_c11)',
 PROPS['C12'] = dict(_MUT_COMMON, judge='(judge_cases judge_c12)', post_batch=make_stat_post('C12', mut_code, mut_hist_of), cov_extra=stat_cov_extra,
     coq_targets=['theories/Props/C12.vo', 'theories/Corr/CorrMut.vo'],
     nontrivial=lambda i, o: True,
-    rule='FULL child distributions (every possible child is a cell): bit-flip at rates {1/16, 1/4, 1/2, 7/8} and 1/len for lengths 1..8 (Vec<bool> and Bitstring alternating); UMAD at (a,d) in {(1/8,1/8), (1/4,1/5), (1/2,1/4), (1,0), (0,1), (1/2,1/3)} on 0..3 tagged genes with a 2-gene alphabet and all empty-genome modes; uniform crossover for lengths 1..6; random bitstrings with p in {0, 1/8, 1/2, 7/8, 1}; Plushy gene generators over 1,2,3,5 instructions with the default (1/(n+1)) and explicit close probabilities; genomes of 65..257 genes (bit-flip, 1/length flip, uniform crossover in every argument form, random bitstrings) judged through pairs of positions - neighbours and 32/63/64/65/128/256 apart - against the pair marginals proved in C12_flip_marginals / C12_bitstring_pairs / C12_uniform_xo_pairs. 20000 (quick) / 400000 (thorough) seeded draws per configuration, compared cell by cell with the law computed from the model in coqc (independence and the new-genes-are-deleted-too clause are consequences of the joint law).',
+    rule='FULL child distributions (every possible child is a cell): bit-flip at rates {1/16, 1/4, 1/2, 7/8} and 1/len for lengths 1..8 (Vec<bool> and Bitstring alternating); UMAD at (a,d) in {(1/8,1/8), (1/4,1/5), (1/2,1/4), (1,0), (0,1), (1/2,1/3)} on 0..3 tagged genes with a 2-gene alphabet and all empty-genome modes; uniform crossover for lengths 1..6; random bitstrings with p in {0, 1/8, 1/2, 7/8, 1}; Plushy gene generators over 1,2,3,5 instructions with the default (1/(n+1)) and explicit close probabilities; genomes of 65..257 genes (bit-flip, 1/length flip, uniform crossover in every argument form, random bitstrings) judged through pairs of positions - neighbours and 32/63/64/65/128/256 apart - against the pair marginals proved in C12_flip_marginals / C12_bitstring_pairs / C12_uniform_xo_pairs; genomes of 2^16+1 .. 2^18 genes with the per-gene flip frequency pooled over all genes of all children (1/length and fixed small rates). 20000 (quick) / 400000 (thorough) seeded draws per configuration, compared cell by cell with the law computed from the model in coqc (independence and the new-genes-are-deleted-too clause are consequences of the joint law).',
     trusted=['rand primitives as oracles', 'statistical tie: Bernstein threshold with delta = 1e-12 per cell, one 10x re-sample before a cell counts; zero-probability children are an exact violation'],
     assumptions=['all rates are dyadic-representable or small rationals; f32/f64 granularity of the rates is far below the test resolution'],
     level_text='Theorems (Props/C12.v) in Q: the bit-flip child distribution is the product law r^h (1-r)^(n-h) (hence independent flips), r n expected flips and exactly one for the 1/length variant; UMAD expected child size n (1-d)(1+a) - new genes being deletable too - and size neutrality at d = a/(1+a); uniform crossover masks are uniform (each position 1/2, independently); random bitstrings follow the product Bernoulli law; a random Plushy gene is a close marker with probability c and otherwise drawn from the instruction distribution, and with the default c = 1/(n+1) all n+1 outcomes are equally likely. Tied to the code by comparing full empirical child distributions with the model law.',
@@ -642,11 +643,17 @@ PROPS['C12'] = dict(_MUT_COMMON, judge='(judge_cases judge_c12)', post_batch=mak
 # C18
 C18_FL = ['Vec into->T', '&Vec into->&T', '&Vec into->T', 'Vec to->T', 'Vec to->&T', '[T;N] into->T', '&[T;N] into->&T', '&[T;N] into->T', '[T;N] to->T', '[T;N] to->&T',
           '&[T] into->&T', '&[T] into->T', '[T] to->&T', '[T] to->T', 'uniform_distribution_of!']
-C18_K = ['Vec collection', 'Bitstring::random', 'Bitstring::random_with_probability', 'Plushy collection', 'population of scored individuals']
+C18_K = ['Vec collection', 'Bitstring::random', 'Bitstring::random_with_probability', 'Plushy collection', 'population of scored individuals', '', '', 'choice over zero-sized members', 'choice over one-byte members', 'collection of zero-sized elements']
 def c18_describe(inp, obs):
     p = inp[2]
     if p[0] == 5:
         return 'uniform choice, flavour %s, source %s, %d draws; observed [num_choices, [[value, count]..]] or [-7]=EmptySlice' % (C18_FL[p[1]], p[2], inp[1])
+    if p[0] == 7:
+        return 'uniform choice, flavour %s, over %d zero-sized members; observed [-7]=EmptySlice or [num_choices, []]' % (C18_FL[p[1]], p[2])
+    if p[0] == 8:
+        return 'owning uniform choice over %d one-byte members (member i = i mod %d), %d draws; observed [num_choices, [[value, count]..]]' % (p[1], p[2], inp[1])
+    if p[0] == 9:
+        return 'collection of %d zero-sized elements, %d draws; observed [[length, elements ok, count]..]' % (p[1], inp[1])
     if p[0] == 6:
         return 'uniform choice, flavour %s, source = the %d members 0..%d, %d draws; observed [num_choices, [[chosen value mod %d (-1: not a member), count]..]]' % (C18_FL[p[1]], p[2], p[2] - 1, inp[1], p[3])
     return '%s of size %d, %d draws; observed [[length, elements ok, count]..]' % (C18_K[p[0]], p[1], inp[1])
@@ -656,9 +663,9 @@ PROPS['C18'] = dict(
     corr='CorrC18', judge='(judge_cases judge)', post_batch=make_stat_post('C18', lambda inp, oc: oc, c18_hist_of), cov_extra=stat_cov_extra,
     coq_targets=['theories/Props/C18.vo', 'theories/Corr/CorrC18.vo'],
     describe=c18_describe, no_shrink=True, nontrivial=lambda i, o: True,
-    classify=lambda i, o: ('choice:%s' % C18_FL[i[2][1]]) if i[2][0] in (5, 6) else ('collection:%s' % C18_K[i[2][0]]),
-    bucket=lambda i, o: [('flavour=%s' % C18_FL[i[2][1]]) if i[2][0] in (5, 6) else ('collection=%s' % C18_K[i[2][0]]), 'size=%d' % (len(i[2][2]) if i[2][0] == 5 else i[2][2] if i[2][0] == 6 else i[2][1])],
-    rule='collection generators for Vec, Bitstring (both constructors), Plushy and a population of scored individuals at sizes 0, 1, 2, 17 and 1000 (length of every sample and membership of every element compared exactly); uniform choices built through all 15 conversion flavours (Vec / array / slice, owning / borrowing / cloning, IntoDistribution / ToDistribution, and the uniform_distribution_of! macro) from empty sources (EmptySlice expected) and from sources of 1..6 members incl. duplicates: num_choices compared exactly, members exactly (zero-probability values are violations), frequencies against 1/len per index; sources of 3*2^23, 2^25 and 2^24+1 members through the Vec and slice flavours, the chosen index judged by residue classes (mod 3, 2, 5) against the class law proved in C18_choice_uniform_classes.',
+    classify=lambda i, o: ('choice:%s' % C18_FL[i[2][1]]) if i[2][0] in (5, 6, 7) else ('collection:%s' % C18_K[i[2][0]]),
+    bucket=lambda i, o: [('flavour=%s' % C18_FL[i[2][1]]) if i[2][0] in (5, 6, 7) else ('collection=%s' % C18_K[i[2][0]]), 'size=%d' % (len(i[2][2]) if i[2][0] == 5 else i[2][2] if i[2][0] in (6, 7) else i[2][1])],
+    rule='collection generators for Vec, Bitstring (both constructors), Plushy and a population of scored individuals at sizes 0, 1, 2, 17 and 1000 (length of every sample and membership of every element compared exactly); uniform choices built through all 15 conversion flavours (Vec / array / slice, owning / borrowing / cloning, IntoDistribution / ToDistribution, and the uniform_distribution_of! macro) from empty sources (EmptySlice expected) and from sources of 1..6 members incl. duplicates: num_choices compared exactly, members exactly (zero-probability values are violations), frequencies against 1/len per index; sources of 3*2^23, 2^25 and 2^24+1 members through the Vec and slice flavours, the chosen index judged by residue classes (mod 3, 2, 5) against the class law proved in C18_choice_uniform_classes; zero-sized elements (collections) and sources of 0, 1, 7, 2^32-1, 2^32, 2^32+1, 2^33 zero-sized members (num_choices exact, rejected only when empty); sources of 100, 192, 255, 257 members with 15x the draws; (thorough) 2^32+2 one-byte members.',
     trusted=['rand Uniform / slice::Choose as oracles', 'statistical tie with delta = 1e-12 per cell'],
     assumptions=[],
     level_text='Theorems (Props/C18.v): a collection generator yields exactly n elements each drawn from the element generator (and is total); a uniform choice returns only indices of the source, each with probability exactly 1/length (duplicates handled by index), and an empty source is rejected at construction. Tied to the code by exact length / membership / num_choices checks for every conversion flavour and by seeded frequencies.',
@@ -694,7 +701,9 @@ C16_OPS = ['Best', 'Worst', 'Random', 'Tournament(2)', 'Lexicase(2)', 'WeightedP
            'WithOneOverLength Bitstring', 'Umad Vector', 'Umad Bitstring (sometimes empty parent)', 'UniformXo [Vec;2]', 'TwoPointXo (Vec,Vec)', 'UniformXo [Bitstring;2]',
            'TwoPointXo [Bitstring;2]', 'collection generator Vec<i64>', 'Bitstring::random', 'Bitstring::random_with_probability', 'Plushy collection of a gene generator',
            'OneOfCloning', 'ChooseCloning', 'IndividualGenerator', 'Select(Tournament).then(GenomeExtractor).then(Mutate(WithRate))', 'GenomeScorer over a pipeline',
-           'Bitstring collection of BoolGenerator', 'WithRate and UniformXo interleaved on one generator']
+           'Bitstring collection of BoolGenerator', 'WithRate and UniformXo interleaved on one generator',
+           'Tournament(2) on 8..47 individuals with many ties', 'Tournament(3) on 8..47 individuals with many ties', 'Lexicase(2) on 8..47 individuals with many ties',
+           'Best on 8..47 individuals with many ties', 'DynWeighted[Tournament(2):2, Worst:1] on 8..47 individuals with many ties']
 def c16_describe(inp, obs):
     if inp[0] == 0:
         return '%s, seed %d, data %s; observed [run from a fresh value, run from another fresh value, run from an already-used value], each [[3 results], next generator word]' % (C16_OPS[inp[1]], inp[2], inp[3])
@@ -716,7 +725,7 @@ PROPS['C16'] = dict(
     describe=c16_describe, no_shrink=True, nontrivial=lambda i, o: True,
     classify=lambda i, o: ('op:%s' % C16_OPS[i[1]]) if i[0] == 0 else 'push-input-order',
     bucket=lambda i, o: [('op=%s' % C16_OPS[i[1]]) if i[0] == 0 else 'push permutations=%d' % i[3]],
-    rule='26 selectors, mutators, recombinators, generators and compositions exported by the three crates (table in harness/src/c16.rs) x 12 (quick) / 200 (thorough) seeds: three consecutive calls from (A) a fresh operator value, (B) another fresh value with a generator cloned from the same seed, (C) a value that was already used five times with another generator - results and the next word of the generator must all coincide (a consult of the thread RNG, global state, or a cache inside the operator shows up as a difference); one entry interleaves two operators on one generator. Push: 80 (quick) / 600 (thorough) random nested programs with 2-3 bound inputs, evaluated under EVERY permutation of the input declarations and twice from each built state: all runs must coincide and equal the model run (stacks, output bytes, outcome).',
+    rule='31 selectors, mutators, recombinators, generators and compositions (selectors also on populations of 8..47 distinct individuals with many ties - where hash order or a cache could decide) exported by the three crates (table in harness/src/c16.rs) x 12 (quick) / 200 (thorough) seeds: three consecutive calls from (A) a fresh operator value, (B) another fresh value with a generator cloned from the same seed, (C) a value that was already used five times with another generator - results and the next word of the generator must all coincide (a consult of the thread RNG, global state, or a cache inside the operator shows up as a difference); one entry interleaves two operators on one generator. Push: 80 (quick) / 600 (thorough) random nested programs with 2-3 bound inputs, evaluated under EVERY permutation of the input declarations and twice from each built state: all runs must coincide and equal the model run (stacks, output bytes, outcome).',
     trusted=['that equal observable results and an equal next word mean equal generator states (SplitMix64 state = one word)'],
     assumptions=['"the code is a function of its arguments" is decided code-against-code: a Gallina model is deterministic by construction and cannot carry that claim'],
     level_text='Theorems (Props/C16.v): named inputs resolve independently of declaration order (lookup is invariant under permutation of a duplicate-free list) and therefore the whole evaluation of any program is - same stacks, output, limits, outcome, step count; combinators have no hidden state (the threaded state after a composition is what its parts left). The remaining half - no randomness or state other than the generator handed in - is decided by double runs from cloned generators on fresh and on used operator values, and by permuting input declarations.',
